@@ -216,7 +216,11 @@ class VideoPlayer(HTMLHandlerBase):
                 )
             title = multi_period.title
         app_cfg = flask.current_app.config["DASH"]
-        manifest += ".mpd"
+        if not manifest.endswith(".mpd"):
+            manifest += ".mpd"
+        if manifest not in manifests.manifest_map:
+            return flask.make_response(
+                f"{html.escape(manifest)} not found", 404)
         context = self.create_context(title=title)
         try:
             options = self.calculate_options(mode, flask.request.args)
